@@ -25,13 +25,13 @@ import (
 //   - the real AggregatedBloomFilter at the window's edge columns (0 and 8191).
 
 var exPlans = []Plan{
-	{{{From: 0, Keys: []int{0}}, {From: 1, Keys: []int{1, 2}}, {From: 0}}},                       // 0
-	nil,                                                                                          // 1: no transactions
-	{{}, {{From: 1, Keys: []int{0, 1}}, {From: 6, Keys: []int{2, 3, 0}}}},                        // 2: empty tx first
+	{{{From: 0, Keys: []int{0}}, {From: 1, Keys: []int{1, 2}}, {From: 0}}}, // 0
+	nil, // 1: no transactions
+	{{}, {{From: 1, Keys: []int{0, 1}}, {From: 6, Keys: []int{2, 3, 0}}}},                          // 2: empty tx first
 	{{{From: 5, Keys: []int{3}}}, {{From: 0, Keys: []int{1}}, {From: 0, Keys: []int{0, 0, 0, 0}}}}, // 3
-	{{{From: 1}}},                                                                                // 4: no keys
-	{{}},                                                                                         // 5: a tx without events
-	{{{From: 0, Keys: []int{0}}, {From: 0, Keys: []int{0}}, {From: 0, Keys: []int{0}}}},          // 6: three equal events
+	{{{From: 1}}}, // 4: no keys
+	{{}},          // 5: a tx without events
+	{{{From: 0, Keys: []int{0}}, {From: 0, Keys: []int{0}}, {From: 0, Keys: []int{0}}}}, // 6: three equal events
 }
 
 func exFilters() []Filt {
@@ -89,6 +89,9 @@ func runExhaustive(res *lib.Result, pool *DrvPool, v Variant, r *lib.RNG) {
 				}
 			}
 		}
+		if !newState {
+			n += w.rpcFamily(filters)
+		}
 		res.HitN("exhaustive:queries", n)
 		if !newState {
 			w.matcherComponents(filters)
@@ -102,6 +105,41 @@ func runExhaustive(res *lib.Result, pool *DrvPool, v Variant, r *lib.RNG) {
 	}
 	aggEdgeColumns(res)
 	res.SetExtra("exhaustive_small_space", "filters(60) × ranges × chunk{1,2,100} × limit{0,1,2} on a 7-block chain; all tokens (b≤head+1, p≤5); matcher components for every filter × block")
+}
+
+// rpcFamily: the three handler versions × block-id kinds × range ends around the head, with and
+// without pre-confirmed blocks (the range logic is duplicated per version).
+func (w *World) rpcFamily(filters []Filt) int {
+	head := len(w.Chain) - 1
+	pre := []Plan{{{Ev{From: 0, Keys: []int{0}}, Ev{From: 1, Keys: []int{1}}}}, {{Ev{From: 0}}}}
+	n := 0
+	for fi := 0; fi < len(filters); fi += 4 {
+		f := filters[fi]
+		for _, api := range []string{"", "v9", "v8"} {
+			if api != "" && len(f.Addrs) > 1 {
+				continue
+			}
+			for _, from := range []struct {
+				tag string
+				n   int
+			}{{"", 0}, {"", head}, {"latest", 0}, {"pre_confirmed", 0}, {"hash", 2}} {
+				for _, to := range []struct {
+					tag string
+					n   int
+				}{{"", head - 1}, {"", head}, {"", head + 1}, {"", head + 3}, {"latest", 0}, {"pre_confirmed", 0}, {"hash", head}} {
+					for _, withPre := range []bool{false, true} {
+						q := Q{F: f, From: from.n, To: to.n, FromTag: from.tag, ToTag: to.tag, Chunk: 2, Rpc: true, Api: api}
+						if withPre && api != "v8" {
+							q.Pre = pre
+						}
+						w.quietQuery(q)
+						n++
+					}
+				}
+			}
+		}
+	}
+	return n
 }
 
 // quietQuery is runQuery without growing the history (the replay of a failure carries the query).
